@@ -520,11 +520,16 @@ class UTPM(Ring, RawAlgorithmsMixIn):
                 for p in range(P):
                     self.data[d,p,...] *= rhs
         else:
+            rhs_data = rhs.data
+            # x *= x or x *= view(x): the loop below overwrites coefficients of
+            # self that it still has to read through rhs
+            if numpy.may_share_memory(self.data, rhs_data):
+                rhs_data = rhs_data.copy()
             for d in range(D)[::-1]:
                 for p in range(P):
-                    self.data[d,p,...] *= rhs.data[0,p,...]
+                    self.data[d,p,...] *= rhs_data[0,p,...]
                     for c in range(d):
-                        self.data[d,p,...] += self.data[c,p,...] * rhs.data[d-c,p,...]
+                        self.data[d,p,...] += self.data[c,p,...] * rhs_data[d-c,p,...]
         return self
 
     def __itruediv__(self,rhs):
